@@ -312,7 +312,15 @@ func c07Dump(c *ctx, s *c07Scn) {
 }
 
 // c07Call runs one listing with a watchdog; panics and hangs are results.
+var c07Hangs int
+var c07Watchdog = 25 * time.Second
+
 func c07Call(f func() ([]c07Ret, error)) (out []c07Ret, class string) {
+	if c07Hangs >= 3 {
+		// a listing that does not return keeps its goroutine (and its memory) busy: after three of
+		// them there are failing inputs enough; do not start more
+		return nil, "hang"
+	}
 	type res struct {
 		out []c07Ret
 		err error
@@ -330,7 +338,8 @@ func c07Call(f func() ([]c07Ret, error)) (out []c07Ret, class string) {
 	select {
 	case rr := <-ch:
 		return rr.out, corekit.ErrClass(rr.err)
-	case <-time.After(120 * time.Second):
+	case <-time.After(c07Watchdog):
+		c07Hangs++
 		return nil, "hang"
 	}
 }
@@ -580,6 +589,9 @@ func c07Case(c *ctx, descr string, z c07Sizes, realAPI, full bool) {
 }
 
 func c07(c *ctx) error {
+	if c.thorough() {
+		c07Watchdog = 120 * time.Second
+	}
 	r := c.rng
 	// the two observations of DESIGN §5.0, as fixed cases
 	c07Case(c, "three-diamonds", c07Sizes{repos: 3, diamonds: 3, splits: 1, index: 2}, true, true)
